@@ -55,6 +55,7 @@ def run(ctx, rep):
     rep.rule("R02.6", "buffered iteration yields every fetched element in order and stops only on an empty chunk")
     rep.rule("R02.8", "generated proxy classes are reused only for the exact class they were generated for (cache keyed by the "
                       "whole id of a class object, never by name alone)")
+    rep.rule("R02.9", "the attribute policy itself does not evaluate the target's attribute (a getter runs exactly once per access) (= R06.3)")
     rep.rule("R02.10", "forwarding special methods have no local short-cut: every path sends exactly one request and returns its reply")
     rep.rule("R02.7", "attribute get/set/del on a proxy: local names stay local, everything else goes to the matching handler with (name[, value])")
     rep.assume("result/exception equality of operations and target state after failed operations are not decided")
@@ -387,3 +388,5 @@ def run(ctx, rep):
                "target's own %s would return (e.g. an identity short-cut for `x == x` with a non-reflexive __eq__)"
                % (meth, sorted(at), meth), f.loc)
     rep.floor("R02.10", "forwarding special methods", n10, 10)
+
+    K.share(ctx, rep, "c06", lambda o: o.rule == "R06.3", "R02.9", floor=1)
